@@ -13,19 +13,26 @@
     number of remaining inclusion instants with the invariant "everything below the heap minimum
     has been decided" (`RSet.loop_spec`).
   * `rset_len`: the published `_len` (`total`) is the length of the specification.
-  * `history_members`: after any sequence of mutators and queries the generator of the set
-    object is the one of the members present at that moment (every mutator invalidates).
+  * `history_inv`: for EVERY op sequence over addRRule / addRDate / addExRule / addExDate / any
+    query (iterPartial k = `.take k`, iterFull, count, between, after, before, index, slice, in,
+    xafter) / `open_ k` (create an iterator, take k, KEEP it) / `resume j k`, cache on or off,
+    member streams sorted, in which **no iterator created before a mutator is advanced after it**
+    (`NoStale`), every observation equals the specification of the members present at that
+    moment (`specOps`: list semantics on `setSpec`, for a kept iterator its next k instants).
+    Composition of `rset_iter_eq_spec` (what the generator yields), the invariant of the cache
+    machine of C11 run one thread at a time (`Cache.Solo`, `runQuery_spec`, `takeVals_spec`) and
+    `C12.gen_eq_spec`/`fast_eq_spec`.
 
-  Not proved (kept visible; see ASSUMPTIONS/known finding D-C10-stale):
-    history_inv : ∀ ops, every observation of `runOps (newState c) ops` equals
-                  `spec q (setSpec members-at-that-moment)`
-  The pieces are proved — `rset_iter_eq_spec` (what the generator yields), `C11.finished_answer`
-  (a consumer that finishes on the cache machine holds `spec q src`, any schedule), `C12.gen_eq_spec`
-  (cache off) — but their composition over the run-to-completion function `RSet.soloRun` is not
-  formalised; `history_members` is the `_partial` statement that is.
+  The statement WITHOUT the hypothesis,
+      ∀ c ops, (∀ op ∈ ops, opSorted op) → runOps (newState c) ops = specOps {} ops,
+  is FALSE for the code as it is (known finding D-C10-stale): the `example`s at the end run the
+  model on the witness histories and show observations different from the specification — an
+  iterator created before a mutator and advanced after it marks the NEW empty cache complete
+  (cached), or raises TypeError, or publishes the old total as `_len` (uncached).
 -/
 import DateutilVerif.Proofs.RRuleSetSpec
 import DateutilVerif.Proofs.CacheGlobal
+import DateutilVerif.Proofs.RSetHistoryInv
 
 namespace C10
 open RSet
@@ -62,51 +69,61 @@ theorem rset_len (sel : Sel) (adm : Admissible sel) (inc exc : List (List Int))
     (iter sel inc exc).length = (setSpec inc exc).length := by
   rw [rset_iter_eq_spec sel adm inc exc hinc hexc]
 
-/-- the generator attached to the set object after a history is the one of the current members -/
-def Fresh (st : RSetState) : Prop := st.sh.src = st.m.src
+/-- **history_inv.** Every observation of every history that never advances an iterator created
+    before a mutator after that mutator equals the specification of the members present at that
+    moment — cache on or off, any interleaving of additions, queries, kept and dropped iterators. -/
+theorem history_inv (cacheOn : Bool) (ops : List Op) (hsorted : ∀ op ∈ ops, opSorted op)
+    (hfresh : NoStale {} ops) :
+    runOps (newState cacheOn) ops = specOps {} ops :=
+  history_good ops (newState cacheOn) {} (good_init cacheOn) hsorted hfresh
 
-theorem soloRun_src (s : Cache.State) (fuel : Nat) : (soloRun s fuel).sh.src = s.sh.src := by
-  induction fuel generalizing s with
-  | zero => rfl
-  | succ fuel ih =>
-    unfold soloRun
-    cases h : Cache.step s 0 with
-    | none => rfl
-    | some s' =>
-      simp only []
-      rw [ih s']
-      obtain ⟨it, sh', it', hit, hst, rfl⟩ := Cache.step_eq h
-      -- a step never changes the ghost `src`
-      unfold Cache.stepIter at hst
-      split at hst <;> (try split at hst) <;>
-        first
-          | (simp only [Option.some.injEq, Prod.mk.injEq] at hst; obtain ⟨rfl, _⟩ := hst; rfl)
-          | cases hst
-
-theorem runUncached_src (sh : Cache.Shared) (q : Queries.Query) : (runUncached sh q).1.src = sh.src := by
-  unfold runUncached
-  simp only []
-  (repeat' split) <;> rfl
-
-/-- **history_members (`history_inv_partial`).** Every mutator invalidates: after any history, the
-    (cached or uncached) generator state of the set object refers to the members present now. -/
-theorem history_members (st : RSetState) (op : Op) (h : Fresh st) : Fresh (applyOp st op).1 := by
-  unfold Fresh at *
-  cases op with
-  | addRRule l => rfl
-  | addRDate d => rfl
-  | addExRule l => rfl
-  | addExDate d => rfl
-  | q q =>
-    simp only [applyOp]
-    split
-    · simp only [runQuery]
-      rw [soloRun_src]; exact h
-    · rw [runUncached_src]; exact h
+/-- in particular for histories whose iterators are all dropped at once (iterPartial k = `.take k`) -/
+theorem history_inv_dropped (cacheOn : Bool) (ops : List Op) (hsorted : ∀ op ∈ ops, opSorted op)
+    (hq : ∀ op ∈ ops, ∀ j k, op ≠ .resume j k) :
+    runOps (newState cacheOn) ops = specOps {} ops := by
+  apply history_inv cacheOn ops hsorted
+  have : ∀ (tr : Track) (ops : List Op), (∀ op ∈ ops, ∀ j k, op ≠ .resume j k) → NoStale tr ops := by
+    intro tr ops
+    induction ops generalizing tr with
+    | nil => intro _; trivial
+    | cons op ops ih =>
+      intro h
+      refine ⟨?_, ih _ (fun o ho => h o (by simp [ho]))⟩
+      cases op with
+      | resume j k => exact absurd rfl (h _ (by simp) j k)
+      | _ => trivial
+  exact this {} ops hq
 
 -- non-vacuity: coinciding occurrences in several members, an exclusion that exhausts first
 example : iter selFirstMin [[0, 5, 5, 9], [1, 5, 7], []] [[5], [0, 0]] = [1, 7, 9] := by decide
 example : setSpec [[0, 5, 5, 9], [1, 5, 7], []] [[5], [0, 0]] = [1, 7, 9] := by decide
 example : Admissible selFirstMin := selFirstMin_adm
+
+-- a history inside the hypothesis: kept iterators advanced only before the next mutator
+example : runOps (newState true) [.addRRule [0, 1, 2, 3], .open_ 2, .q (.index 1), .resume 0 1, .addRDate 9, .open_ 0,
+                                  .resume 1 3, .q .count] =
+          specOps {} [.addRRule [0, 1, 2, 3], .open_ 2, .q (.index 1), .resume 0 1, .addRDate 9, .open_ 0,
+                      .resume 1 3, .q .count] := by decide
+
+/-- the hypothesis is necessary — D-C10-stale in the model (cache on): 13 daily instants, an iterator
+    that has taken one, `rdate(20)`, the stale iterator run to its end; then `list(s)` is EMPTY and
+    `count()` is 13, where the specification says 14 instants -/
+def staleWitness : List Op :=
+  [.addRRule [0, 1, 2, 3, 4, 5, 6, 7, 8, 9, 10, 11, 12], .open_ 1, .addRDate 20, .resume 0 100, .q .iterAll, .q .count]
+
+example : (runOps (newState true) staleWitness).drop 4 = [some (.list []), some (.nat 13)] := by decide
+example : (specOps {} staleWitness).drop 4 =
+    [some (.list [0, 1, 2, 3, 4, 5, 6, 7, 8, 9, 10, 11, 12, 20]), some (.nat 14)] := by decide
+example : runOps (newState true) staleWitness ≠ specOps {} staleWitness := by decide
+example : ¬ NoStale {} staleWitness := by
+  intro h
+  have h4 : (1 : Nat) = 2 := h.2.2.2.1 1 1 rfl
+  omega
+-- cache off: the stale generator publishes its old total
+example : (runOps (newState false) [.addRRule [0, 1, 2], .open_ 1, .addRDate 20, .resume 0 100, .q .count]).getLast?
+          = some (some (.nat 3)) := by decide
+-- cache on, generator already exhausted before the mutator: the stale iterator raises TypeError (`i < None`)
+example : (runOps (newState true) [.addRRule [0, 1, 2], .open_ 1, .addRDate 20, .resume 0 100]).getLast?
+          = some (some (.err .TypeError)) := by decide
 
 end C10
